@@ -49,3 +49,30 @@ func specAST(v interface{}) interface{} {
 }
 
 func realAST(jp *jmespath.JMESPath) interface{} { return specAST(jp.VerifAST()) }
+
+var tokNames = map[string]string{"tStar": "star", "tDot": "dot", "tFilter": "filter", "tFlatten": "flatten", "tLparen": "lparen", "tRparen": "rparen",
+	"tLbracket": "lbracket", "tRbracket": "rbracket", "tLbrace": "lbrace", "tRbrace": "rbrace", "tOr": "or", "tPipe": "pipe", "tNumber": "number",
+	"tUnquotedIdentifier": "uid", "tQuotedIdentifier": "qid", "tComma": "comma", "tColon": "colon", "tLT": "lt", "tLTE": "lte", "tGT": "gt", "tGTE": "gte",
+	"tEQ": "eq", "tNE": "ne", "tJSONLiteral": "jsonlit", "tStringLiteral": "strlit", "tCurrent": "current", "tExpref": "expref", "tAnd": "and", "tNot": "not",
+	"tEOF": "eof", "tUnknown": "unknown"}
+
+var valuedTok = map[string]bool{"uid": true, "qid": true, "number": true, "jsonlit": true, "strlit": true}
+
+// realTokens: the lexer's token stream in the specification's encoding <<type, value(code points), position, length>>;
+// nil when the lexer fails.
+func realTokens(text string) interface{} {
+	toks, err := jmespath.VerifTokenize(text)
+	if err != nil {
+		return []interface{}{}
+	}
+	out := []interface{}{}
+	for _, t := range toks {
+		name := tokNames[t.Type]
+		var val interface{} = []interface{}{}
+		if valuedTok[name] {
+			val = bytesToCps(t.Value)
+		}
+		out = append(out, []interface{}{name, val, t.Position, t.Length})
+	}
+	return out
+}
